@@ -544,6 +544,21 @@ static void f18_render (uint64_t idx) {
 static int f18_ninputs (uint64_t idx) { return 4; }
 static pinput f18_input (uint64_t idx, int i) { pinput p = {i & 1 ? 0x1122334455667788ll : 0, i & 2 ? -1 : 5, -1, 0, 0}; return p; }
 
+/* =============================== F19: functions with several results and several ret insns returning the same registers in different orders =============================== */
+static const char *F19_R2[] = {"u, v", "v, u", "u, u", "v, v", "u, w", "w, u"};
+static uint64_t f19_count (int th) { return 2 * 6 * 6 * 2; }
+static void f19_render (uint64_t idx) {
+  int inl = idx % 2; idx /= 2; int last = idx % 6; idx /= 6; int first = idx % 6; int three = (int) (idx / 6);
+  ptl = 0; S ("%s", PRELUDE);
+  if (three) /* narrow result types: every ret extends */
+    S ("p_g: proto i32, u8, i64:u, i64:v, i64:c\ng: func i32, u8, i64:u, i64:v, i64:c\n  local i64:w\n  add w, u, v\n  add w, w, 0xfffffff80\n  add u, u, 0x7fffff00\n  add v, v, 0xf0\n  bf G1, c\n  ret %s\nG1:\n  ret %s\nendfunc\n", F19_R2[first], F19_R2[last]);
+  else S ("p_g: proto i64, i64, i64:u, i64:v, i64:c\ng: func i64, i64, i64:u, i64:v, i64:c\n  local i64:w\n  add w, u, v\n  bf G1, c\n  ret %s\nG1:\n  ret %s\nendfunc\n", F19_R2[first], F19_R2[last]);
+  S ("f: func i64, i64:a, i64:b, p:m, p:q, d:x, d:y\n  local i64:r, i64:r0, i64:r1, i64:r2, i64:c\n  and c, b, 1\n  mov r2, 0\n");
+  S ("  %s p_g, g, r0, r1%s, a, b, c\n  mul r, r0, 7\n  add r, r, r1\n  mul r, r, 5\n  add r, r, r2\n  ret r\n", inl ? "inline" : "call", ""); end_func ();
+}
+static int f19_ninputs (uint64_t idx) { return 4; }
+static pinput f19_input (uint64_t idx, int i) { pinput p = {i & 1 ? 100 : 3, i & 2 ? 41 : 8, -1, 0, 0}; return p; }
+
 int progfam_thorough;
 static const family FAMILIES[] = {
   {"F1a-ext-chains", f1a_count, f1a_render, in_intgrid_n, in_intgrid},
@@ -568,6 +583,7 @@ static const family FAMILIES[] = {
   {"F16-constant-first-extended", f16_count, f16_render, f16_ninputs, f16_input},
   {"F17-identity-constants", f17_count, f17_render, f17_ninputs, f17_input},
   {"F18-loop-pointer-stores", f18_count, f18_render, f18_ninputs, f18_input},
+  {"F19-multiple-results-rets", f19_count, f19_render, f19_ninputs, f19_input},
   /* thorough only, 1.5e8 programs: kept last so that a deadline cuts this family and no other */
   {"F3t-cfg3-full", f3t_count, f3t_render, f3_ninputs, f3_input},
 };
